@@ -2,6 +2,7 @@ package mongokit
 
 import (
 	"fmt"
+	"math"
 
 	"go.mongodb.org/mongo-driver/bson"
 
@@ -184,12 +185,12 @@ func projectSlice(ctx Context, doc bsonkit.Doc, _, path string, v interface{}) e
 	var skip, limit int
 	var hasSkip bool
 	switch nn := v.(type) {
-	case int32:
-		limit = int(nn)
-	case int64:
-		limit = int(nn)
-	case float64:
-		limit = int(nn)
+	case int32, int64, float64:
+		l, ok := projectSliceInt(nn)
+		if !ok {
+			return fmt.Errorf("$slice: expected a number")
+		}
+		limit = l
 	case bson.A:
 		if len(nn) != 2 {
 			return fmt.Errorf("$slice: array argument requires 2 elements, got %d", len(nn))
@@ -263,13 +264,29 @@ func projectSlice(ctx Context, doc bsonkit.Doc, _, path string, v interface{}) e
 	return nil
 }
 
+// projectSliceInt converts a $slice argument to an int. The value is clamped
+// to the int32 range (no array can be longer) so that the window arithmetic
+// cannot overflow; NaN is not a number.
 func projectSliceInt(v interface{}) (int, bool) {
+	const max = math.MaxInt32
 	switch n := v.(type) {
 	case int32:
 		return int(n), true
 	case int64:
+		if n > max {
+			return max, true
+		} else if n < -max {
+			return -max, true
+		}
 		return int(n), true
 	case float64:
+		if math.IsNaN(n) {
+			return 0, false
+		} else if n > max {
+			return max, true
+		} else if n < -max {
+			return -max, true
+		}
 		return int(n), true
 	default:
 		return 0, false
